@@ -56,6 +56,7 @@ from typing import TYPE_CHECKING
 from typing import ClassVar
 
 from numpy import array
+from numpy import atleast_2d
 from numpy import repeat
 from numpy import zeros
 from sklearn.linear_model import ElasticNet
@@ -135,12 +136,17 @@ class LinearRegressor(BaseRegressor):
         self,
         input_data: RealArray,
     ) -> RealArray:
-        return repeat(self.algo.coef_[None], len(input_data), axis=0)
+        return repeat(self.coefficients[None], len(input_data), axis=0)
 
     @property
     def coefficients(self) -> RealArray:
-        """The regression coefficients of the linear model."""
-        return self.algo.coef_
+        """The regression coefficients of the linear model.
+
+        Shaped as ``(n_outputs, n_inputs)``,
+        including when scikit-learn stores them as a 1D array
+        (single output with an L1 penalty).
+        """
+        return atleast_2d(self.algo.coef_)
 
     @property
     def intercept(self) -> RealArray:
@@ -148,7 +154,7 @@ class LinearRegressor(BaseRegressor):
         if self._settings.fit_intercept:
             return self.algo.intercept_
 
-        return zeros(self.algo.coef_.shape[0])
+        return zeros(self.coefficients.shape[0])
 
     def get_coefficients(
         self,
